@@ -171,6 +171,8 @@ class contrast:
         null hypothesis: (H0) 'contrast equals baseline'
         """
         self._baseline = baseline
+        # a cached p-value belongs to the previous baseline
+        self._pvalue = None
 
         # Case: one-dimensional contrast ==> t or t**2
         if self.dim == 1:
